@@ -35,7 +35,7 @@ def expected_gens(case):
     parent = {}
     for p, s in enumerate(case['rts']):
         for k, a in enumerate(s):
-            if a[0] == 'spawn':
+            if a[0] in ('spawn', 'pull'):
                 parent.setdefault(a[1], (p, k))
 
     def gen_at(r, pos):
@@ -97,7 +97,7 @@ class Check(c05.Check):
             parent[i], depth[i] = p, depth[p] + 1
         interfere = single or rng.random() < 0.0
         nconds = rng.choice([0, 1, 1, 2]) if interfere else 0
-        seeds = iter(rng.sample(range(1, 60), 12))
+        seeds = iter(rng.sample(range(1, 90), 24))
         rts = []
         for i in range(n):
             ny = rng.choice([1, 2, 3, 3, 4, 5, 6, 8])
@@ -138,6 +138,21 @@ class Check(c05.Check):
         for i in range(1, n):
             p = parent[i]
             rts[p].insert(rng.randrange(min(len(rts[p]), 4) + 1), ['spawn', i, rng.choice(clocks)])
+        if rng.random() < 0.5:
+            # sub-streams: routines only ever pulled with next() from inside one other routine's body;
+            # seeded themselves or not, while the puller (seeded or not) draws too
+            for _ in range(rng.randint(1, 2)):
+                puller = rng.randrange(n)
+                sub = len(rts)
+                body = ([['seed', next(seeds)]] if rng.random() < 0.7 else [])
+                for _ in range(rng.randint(1, 4)):
+                    body += [['draw']] * rng.randint(1, 2) + [['y', '0']]
+                if rng.random() < 0.3:
+                    body.insert(rng.randrange(1, len(body) + 1), ['seed', next(seeds)])
+                rts.append(body)
+                for _ in range(rng.randint(1, 4)):
+                    k = rng.randrange(len(rts[puller]) + 1)
+                    rts[puller][k:k] = [['draw']] * rng.randint(0, 2) + [['pull', sub]]
         tclk = [int(c[1:]) for c in clocks if c[0] == 't']
         if tclk and (single or rng.random() < 0.3):
             who = 0 if not single else rng.randrange(n)
